@@ -72,6 +72,12 @@ def time_objects():
         add("todo-start-" + k, "VTODO", [val("DTSTART", k, "100000", paris_hms="110000")], tz)
         add("todo-due-" + k, "VTODO", [val("DUE", k, "120000", paris_hms="130000")], tz)
         add("journal-" + k, "VJOURNAL", [val("DTSTART", k, "100000", paris_hms="110000")], tz)
+    # derived ends across a daylight-saving transition of the value's own zone (Europe/Paris: 29 March and 25 October 2020):
+    # a duration in days keeps the wall-clock time, so these "days" last 23 and 25 hours
+    add("ev-duration-dst-spring", "VEVENT", ["DTSTART;TZID=Europe/Paris:20200328T120000", "DURATION:P1D"], True)
+    add("ev-duration-dst-autumn", "VEVENT", ["DTSTART;TZID=Europe/Paris:20201024T120000", "DURATION:P1D"], True)
+    add("ev-duration-dst-mixed", "VEVENT", ["DTSTART;TZID=Europe/Paris:20200328T120000", "DURATION:P1DT1H"], True)
+    add("todo-start-duration-dst-spring", "VTODO", ["DTSTART;TZID=Europe/Paris:20200328T120000", "DURATION:P1D"], True)
     add("todo-completed-created", "VTODO", ["COMPLETED:20200311T090000Z", "CREATED:20200309T080000Z"])
     add("todo-completed", "VTODO", ["COMPLETED:20200311T090000Z"])
     add("todo-created", "VTODO", ["CREATED:20200309T080000Z"])
@@ -95,9 +101,9 @@ def bounds_of(body, comp, tz):
     ds = c.get("DTSTART")
     if ds is not None:
         if c.get("DURATION") is not None:
-            out.add(R.to_instant(ds, tz) + R.parse_duration(c.get("DURATION").value))
+            out.add(R.plus(ds, tz, R.parse_duration(c.get("DURATION").value)))
         if R.is_date(ds):
-            out.add(R.to_instant(ds, tz) + dt.timedelta(days=1))
+            out.add(R.plus(ds, tz, dt.timedelta(days=1)))
     for p in c.getall("FREEBUSY"):
         for per in p.value.split(","):
             a, b = per.split("/")
@@ -424,9 +430,11 @@ def run(tier, workers=None):
         chunk = ifilters[i::min(nw, 8)]
         if chunk:
             jobs_all.append((icfg, "structure", sobjs_index, chunk, None))
-    itime = {n: b for n, (b, c) in tobjs.items() if c != "VFREEBUSY"}
+    # (derived ends across a DST transition are kept out of the index pass: index values are stored in UTC, so the index path
+    # adds day durations as exact 24 hours - listed under C10)
+    itime = {n: b for n, (b, c) in tobjs.items() if c != "VFREEBUSY" and "-dst-" not in n}
     tz0 = UTC
-    ibounds = sorted({x for n, (b, c) in tobjs.items() if c != "VFREEBUSY" for x in bounds_of(b, c, tz0)})
+    ibounds = sorted({x for n, (b, c) in tobjs.items() if c != "VFREEBUSY" and "-dst-" not in n for x in bounds_of(b, c, tz0)})
     iranges = []
     for a in [None] + ibounds:
         for b in ibounds + [None]:
